@@ -1,6 +1,6 @@
 SPECIFICATION Spec
 CONSTANTS
-  MaxCalls = 3
+  MaxCalls = 2
   MaxFlush = 3
   MaxIntr = 1
   AllowCancel = TRUE
